@@ -113,8 +113,10 @@ func (f *File) newID() int { f.nextID++; return f.nextID }
 func (f *File) String() string {
 	var b strings.Builder
 	b.WriteString(f.Header)
-	b.WriteString(f.Pkg)
-	b.WriteString("\n\n")
+	if f.Pkg != "" { // templ also accepts files without a package clause
+		b.WriteString(f.Pkg)
+		b.WriteString("\n\n")
+	}
 	for _, it := range f.Items {
 		it.print(&b)
 	}
